@@ -91,7 +91,7 @@ PROPS = {
     },
     "C13": {
         "module": "Cdecao.Props.C13",
-        "extra_modules": ["Cdecao.Props.C13OneWorker", "Cdecao.Props.Main"],
+        "extra_modules": ["Cdecao.Props.C13OneWorker", "Cdecao.Props.C13E2E", "Cdecao.Props.Main"],
         "theorems": ["Props.C13_read", "Props.C13_toplevel", "Props.C13_one_worker_step", "Props.C13_one_worker_never_waits", "Props.C13_one_worker_outcome"],
         "streams": ["cdedb-pairs", "e2e-cde"],
     },
@@ -173,7 +173,7 @@ LEVELS = {
             "note": "Model CD.read/CD.adapt; the room offset change is applied natively (f32) by the driver. Room fitting with both groups rests on the offset correspondence (f32) and C06."},
     "C12": {"text": "Theorems Props.C12_read (assembled characterisation of CD.read: participants = the registrations of the selected part with status participant, not ignored, having a valid choice or instructing a kept course, in key order; courses = offered (and not ignored) ones, stably sorted by the padded number; instructor indices point at the instructing registration), C12_choices (penalty = position in the ORIGINAL list, skipped courses leave gaps), C12_courses, refusals (kind, version, no track, two tracks unselected, unknown track), defaults from the re-extracted constants; exact correspondence of CD.read with io::cdedb::read (courses, participants, choices/penalties, sizes, f32 factor/offset bits, ambience data, Ok/Err) on generated exports incl. single-field corruptions; an independent declarative re-statement (Python) as oracle.",
             "note": "Model starts at the serde_json value; timestamp syntax by a simplified recogniser exact on the generator's domain; object keys are read as `u64::from_str` does (optional plus sign, leading zeros; generated)."},
-    "C13": {"text": "Theorem Props.C13_read (non-interference of the reader): two export values that agree on kind/version/timestamp/event/id and whose course and registration records agree on the views the reader consults (status of the selected part, the two names, course_id/course_instructor/choices of the selected track, segments[track], nr, shortname, sizes, fields) — and, without --ignore-assigned, differ arbitrarily in course_id among known ids, without --ignore-cancelled in the true/false value of the selected track's segment — give the SAME reader result (problem, ambience data or refusal). After the reader (Props/C13OneWorker.lean, on the engine transition system): with one worker the worker never waits (C13_one_worker_never_waits: no wake-up choice, no spurious wake-up), two enabled events lead to the same configuration unless they pop different pending entries (C13_one_worker_step), and for any fixed behaviour of the priority queue (a function of the configurations visited so far) two complete runs end in the same configuration, same incumbent and score (C13_one_worker_outcome); trusted: std BinaryHeap and the node solver are functions of their inputs. Pairs of exports (1-10 irrelevant edits of 9 kinds) go through the in-process reader and, with one worker, through the real binary (files compared after stripping timestamps).",
+    "C13": {"text": "Theorem Props.C13_read (non-interference of the reader): two export values that agree on kind/version/timestamp/event/id and whose course and registration records agree on the views the reader consults (status of the selected part, the two names, course_id/course_instructor/choices of the selected track, segments[track], nr, shortname, sizes, fields) — and, without --ignore-assigned, differ arbitrarily in course_id among known ids, without --ignore-cancelled in the true/false value of the selected track's segment — give the SAME reader result (problem, ambience data or refusal). After the reader (Props/C13OneWorker.lean, on the engine transition system): with one worker the worker never waits (C13_one_worker_never_waits: no wake-up choice, no spurious wake-up), two enabled events lead to the same configuration unless they pop different pending entries (C13_one_worker_step), and for any fixed behaviour of the priority queue (a function of the configurations visited so far) two complete runs end in the same configuration, same incumbent and score (C13_one_worker_outcome); composed (Props/C13E2E.lean) C13_end_to_end: agreeing exports are refused alike or give, for every room list, float behaviour and fixed queue behaviour, complete one-worker runs with the same verdict, score and written registrations / courses objects; trusted: std BinaryHeap and the node solver are functions of their inputs. Pairs of exports (1-10 irrelevant edits of 9 kinds) go through the in-process reader and, with one worker, through the real binary (files compared after stripping timestamps).",
             "note": "Model CD.read; the relation Agree is phrased by equality of views, the nested set-a-member corollaries are covered by congruence lemmas and a worked example. Determinism of the engine with one worker given the same problem is by the engine model being a function of the pop policy (BinaryHeap order is deterministic for equal inputs; trusted)."},
     "C14": {"text": "Theorems Props.C14_entries / C14_entries_sorted (the listing of a course = exactly the participants assigned to it, in order, flagged iff instructor) and C14_array (one entry per participant, null or valid index, all T and schedules); the real binary's --print output is compared byte for byte with the Lean rendering LM.render, and the output file's array/keys are checked, incl. hidden names, non-ASCII names and a stale longer output file.",
             "note": "io.rs format_assignment is modelled by LM.render; the possible-rooms strings are taken from the real output and checked by C18."},
